@@ -72,11 +72,16 @@ def load_table(name):
     return json.load(open(p))
 
 
+SCOPE_FLOORS = {'c08': 250, 'c02': 230, 'c18': 20}
+
+
 def run_census(prog, rep, which, rule):
     """PANIC census for a scope; returns (scope, taint)"""
     roots = entry_points(prog, which)
     rep.floor(rule + '.entries', len(roots), ENTRY_FLOORS[which], 'entry points resolved')
     scope = [b for b in reachable_bodies(prog, roots) if b.pkg != 'mla-fuzz-afl']
+    # vacuity guard on what is analysed (bodies), not on how many panic sites the code has: removing a panic site is never a violation
+    rep.floor(rule + '.scope', len(scope), SCOPE_FLOORS[which], 'function bodies in the census scope')
     for b in roots:
         rep.fn(b)
     taint = census.Taint(prog, scope, param_sources(prog, which, roots))
@@ -117,7 +122,7 @@ ALLOC_CAP = 2 ** 26   # 64 MiB: anything above must be justified by a named cons
 
 def run(prog, rep, tier):
     scope, taint, seen, table = run_census(prog, rep, 'c08', 'PANIC')
-    rep.floor('PANIC', sum(1 for _ in seen), 120, 'panic sites in the reader / repair scope')
+    rep.floor('PANIC', sum(1 for _ in seen), 60, 'panic sites in the reader / repair scope')
     stale = [k for k in table if k not in seen]
     for k in stale:
         rep.note('table entry without a matching site in the C08 scope (stale or other scope): %s' % k)
@@ -172,7 +177,7 @@ def run(prog, rep, tier):
                 rep.ob('ALLOC', True, key, 'allocation size not derived from untrusted input', body.loc(b.idx))
             else:
                 rep.ob('ALLOC', False, key, 'allocation of %s bytes/elements controlled by archive data without an upper bound against a constant' % census.describe(body, op), body.loc(b.idx))
-    rep.floor('ALLOC', n_alloc, 10, 'allocation sites in scope')
+    rep.floor('ALLOC', n_alloc, 5, 'allocation sites in scope')
     # bincode limit fits u32 (on-disk length fields are u32)
     lim = prog.crates['mla'].const_int('BINCODE_MAX_DESERIALIZE')
     rep.ob('ALLOC', lim is not None and lim <= 2 ** 32 - 1, 'ALLOC|mla::BINCODE_MAX_DESERIALIZE|fits-u32', 'bincode limit %s <= u32::MAX' % lim if lim is not None and lim <= 2 ** 32 - 1 else 'bincode deserialisation limit %s does not bound allocations' % lim, '-')
@@ -207,7 +212,7 @@ def run(prog, rep, tier):
                     rep.ob('RECUR', True, key, 'bounded recursion: ' + rtab[key]['bound'], body.loc(b.idx), sample='bounded: ' + rtab[key]['bound'])
                 else:
                     rep.ob('RECUR', False, key, 'function calls itself on a path whose length is controlled by the input and no depth bound is recorded: a crafted archive can exhaust the stack', body.loc(b.idx))
-    rep.floor('RECUR', nrec, 10, 'direct self-recursive call sites in scope')
+    rep.floor('RECUR', nrec, 3, 'direct self-recursive call sites in scope')
 
     # ---------------- R08.1 placeholder state
     mla = prog.crates['mla']
@@ -268,11 +273,23 @@ def run(prog, rep, tier):
     fb = [b for b in mla.bodies if norm(b.defpath) == 'ArchiveFileBlock::from']
     if fb:
         body = fb[0]
-        allocs = [b for b in body.calls() if 'vec::from_elem' in cnorm(b.term)]
-        ok = bool(allocs)
+        allocs = [b for b in body.calls() if 'vec::from_elem' in cnorm(b.term) or (b.term.cmethod in ('with_capacity', 'resize', 'reserve') and 'Vec' in cnorm(b.term))]
+        grows = [b for b in body.calls() if b.term.cmethod in ('read_to_end', 'read_to_string') and b.term.ctrait == 'std::io::Read']
+        ok = bool(allocs) or bool(grows)
+        cap = prog.crates['mla'].const_int('FILENAME_MAX_SIZE') or 0
         for a in allocs:
-            iv = census.refined_interval(prog, body, a.idx, a.term.args[1])
-            ok = ok and iv is not None and iv[1] <= (prog.crates['mla'].const_int('FILENAME_MAX_SIZE') or 0)
+            op = a.term.args[0] if a.term.cmethod == 'with_capacity' else a.term.args[1]
+            iv = census.refined_interval(prog, body, a.idx, op)
+            ok = ok and iv is not None and iv[1] <= cap
+        for g in grows:
+            # a growing read is bounded when it goes through take(limit) with limit <= FILENAME_MAX_SIZE
+            ro = origins(body, [g.term.args[0].place[0]])
+            tk = [body.blocks[c] for c in ro.calls if body.blocks[c].term.cmethod == 'take' and body.blocks[c].term.ctrait == 'std::io::Read']
+            okg = len(tk) == 1
+            if okg:
+                iv = census.refined_interval(prog, body, tk[0].idx, tk[0].term.args[1])
+                okg = iv is not None and iv[1] <= cap
+            ok = ok and okg
         rep.ob('R08.3', ok, 'R08.3|mla::ArchiveFileBlock::from|name-allocation-bounded', 'name buffer bounded by FILENAME_MAX_SIZE' if ok else 'the file-name buffer is allocated from a length that is not bounded by FILENAME_MAX_SIZE', body.loc())
 
 
